@@ -733,7 +733,7 @@ func main() {
 	}
 
 	// ---- random structured queues
-	nrand := 170
+	nrand := 450
 	if thorough {
 		nrand = 6000
 	}
